@@ -11,7 +11,7 @@ ops (JSON lists):
   ['play', r, clock, quant]         clock: None | 'sys' | 'app' | int index
   ['sched', clock, delta, r]        clock.sched(delta, routine r)
   ['pause', r] ['resume', r] ['stop', r]
-  ['tempo', c, v] ['beats', c, v] ['meter', c, v]
+  ['tempo', c, v] ['beats', c, v] ['beats_add', c, d] ['meter', c, v]
   ['msg', tag [, [lat, elem...]]]   addr.send_msg('/m', tag [, bundle-shaped list])
   ['bundle', lat, elems]            addr.send_bundle(lat, *elems); elems are
                                     ['/b', tag] or [sublat, elem...]
@@ -145,6 +145,9 @@ class Interp:
             self.clocks[op[1]].tempo = op[2]
         elif k == 'beats':
             self.clocks[op[1]].beats = op[2]
+        elif k == 'beats_add':
+            c = self.clocks[op[1]]
+            c.beats = c.beats + op[2]
         elif k == 'meter':
             self.clocks[op[1]].beats_per_bar = op[2]
         elif k == 'msg':
